@@ -98,13 +98,8 @@ func (c *zzCtx) Err() error                        { return c.err }
 func (c *zzCtx) Value(key interface{}) interface{} { return nil }
 
 func zzCountRequests(out []byte) int {
-	n := 0
-	for i := 0; i+4 < len(out); i++ {
-		if (i == 0 || out[i-1] == '\n') && (bytes.HasPrefix(out[i:], []byte("GET /")) || bytes.HasPrefix(out[i:], []byte("POST /"))) {
-			n++
-		}
-	}
-	return n
+	// request lines written by the client (a request may directly follow the body of the previous one)
+	return bytes.Count(out, []byte(" HTTP/1.1\r\n"))
 }
 
 // ZZ_C10_H1: sequential histories of M client calls against a scripted peer, every fault
@@ -131,9 +126,11 @@ func ZZ_C10_H1() {
 	respOK := true
 	boundOK := true
 	onceOK := true
+	intactOK := true
 	for i := 0; i < m; i++ {
 		outcome := zz.Choose("outcome", zzNumOutcomes)
-		post := zz.Choose("post", 2) == 1
+		kind := zz.Choose("request", 3) // 0 GET, 1 POST with a body, 2 PUT whose body is a stream
+		post := kind == 1
 		cancelled := zz.Choose("cancelled", 2) == 1
 		cur, curMarker = outcome, byte('0'+i)
 		// the peer's answer for this exchange is appended to every connection that is still
@@ -146,15 +143,20 @@ func ZZ_C10_H1() {
 				}
 			}
 		}
-		before := 0
+		before, bodiesBefore := 0, 0
 		for _, nc := range d.conns {
 			before += zzCountRequests(nc.Out)
+			bodiesBefore += bytes.Count(nc.Out, []byte("\r\n\r\nyz"))
 		}
 		var req protocol.Request
 		var resp protocol.Response
 		if post {
 			req.SetMethod("POST")
 			req.SetBodyString("x")
+		}
+		if kind == 2 {
+			req.SetMethod("PUT")
+			req.SetBodyStream(bytes.NewReader([]byte("yz")), 2)
 		}
 		req.SetRequestURI("http://h/r")
 		ctx := &zzCtx{}
@@ -183,6 +185,17 @@ func ZZ_C10_H1() {
 		if post && after-before > 1 {
 			onceOK = false
 		}
+		if kind == 2 {
+			// every copy of the request that reaches a peer (a re-sent one included) carries its body
+			bodies := -bodiesBefore
+			for _, nc := range d.conns {
+				bodies += bytes.Count(nc.Out, []byte("\r\n\r\nyz"))
+			}
+			// (a write error may cut a request short: only complete header blocks are counted by zzCountRequests... a request whose write failed is excluded)
+			if outcome != zzWriteError && bodies != after-before {
+				intactOK = false
+			}
+		}
 		if cancelled {
 			if err == nil || after != before {
 				respOK = false
@@ -210,6 +223,7 @@ func ZZ_C10_H1() {
 	zz.Assert("response-belongs-to-the-callers-request", respOK)
 	zz.Assert("counted-connections-are-open-idle-and-within-maxconns", boundOK)
 	zz.Assert("unsafe-request-sent-at-most-once", onceOK)
+	zz.Assert("re-sent-request-carries-its-body", intactOK)
 }
 
 // ZZ_C10_H2: the wait-for-a-free-connection path, sequentially. With MaxConns = 1 and
